@@ -9,6 +9,18 @@ package main
 //	node = L <name> <ty> <marker> <ntags> (<key> <valhex>)*
 //	     | S <name> <ty> <marker> <av|ap|nv|np> <ntags> (<key> <valhex>)* <nkids> node*
 //
+//	G+<pos><ret> <n> node*           the same, started together with an EXTRA user InstantiationAware post-processor that sits
+//	                                 ahead of the recording processor in the chain (pos f = priority-ordered, smallest Order:
+//	                                 ahead of every built-in processor; l = ordered, largest Order: behind the built-in ones,
+//	                                 ahead of the unordered recorder) and whose PostProcessProperties RETURNS, for this
+//	                                 component, ret n = nil | s = the slice it was handed | r = a reversed copy | e = an empty
+//	                                 non-nil slice | b = only the properties of built-in tags | m = only the custom-tag
+//	                                 properties | p = a content-chosen part (hash of path and tag).  The delegate drops that
+//	                                 result (ResolveAfterInstantiation: every processor is handed meta.GetAllProperties(),
+//	                                 collected afresh for it), so the definition, the values and what the recorder is handed are
+//	                                 the same as without the extra processor — all oracles below apply unchanged, and the
+//	                                 flattened twin (run WITHOUT the extra processor) must end with the same values.
+//
 // Part A (model comparison).  After the REAL app.Run the component's definition is read from the real
 // definition registry: meta.Fields in scan order (path recovered from the Holder chain by address) and
 // meta.GetAllProperties() (path, tag, property type, parsed value part, arguments), sorted by path+tag:
@@ -36,6 +48,8 @@ package main
 
 import (
 	"fmt"
+	"hash/fnv"
+	"math"
 	"os"
 	"reflect"
 	"sort"
@@ -151,6 +165,89 @@ func (r *scanRecorder) PostProcessProperties(properties []*component_definition.
 		r.seen = append(r.seen, scanSeen{path: scanRealPath(p.Field), tagStr: p.TagStr, args: propArgs(p)})
 	}
 	return nil, nil
+}
+
+/* ---------- the extra processor: user code ahead of the recorder whose PostProcessProperties returns a list ---------- */
+
+type scanExtra struct {
+	processors.DefaultInstantiationAwareComponentPostProcessor
+	definition.LazyInitComponent
+	target string
+	ret    byte
+	order  int
+	calls  int
+	handed int // properties handed to it in its last call for the target
+}
+
+func (x *scanExtra) Order() int { return x.order }
+
+func (x *scanExtra) PostProcessAfterInstantiation(component any, componentName string) (bool, error) {
+	return componentName == x.target, nil
+}
+
+func (x *scanExtra) PostProcessProperties(properties []*component_definition.Property, component any, componentName string) ([]*component_definition.Property, error) {
+	if componentName != x.target {
+		return nil, nil
+	}
+	x.calls++
+	x.handed = len(properties)
+	keep := func(f func(p *component_definition.Property) bool) []*component_definition.Property {
+		out := []*component_definition.Property{}
+		for _, p := range properties {
+			if f(p) {
+				out = append(out, p)
+			}
+		}
+		return out
+	}
+	switch x.ret {
+	case 's':
+		return properties, nil
+	case 'r':
+		out := keep(func(*component_definition.Property) bool { return true })
+		for i, j := 0, len(out)-1; i < j; i, j = i+1, j-1 {
+			out[i], out[j] = out[j], out[i]
+		}
+		return out, nil
+	case 'e':
+		return []*component_definition.Property{}, nil
+	case 'b':
+		return keep(func(p *component_definition.Property) bool { return p.Tag != scanCustomTag }), nil
+	case 'm':
+		return keep(func(p *component_definition.Property) bool { return p.Tag == scanCustomTag }), nil
+	case 'p':
+		return keep(func(p *component_definition.Property) bool {
+			h := fnv.New32a()
+			h.Write([]byte(scanRealPath(p.Field) + "/" + p.Tag))
+			return h.Sum32()%2 == 0
+		}), nil
+	}
+	return nil, nil
+}
+
+// the priority-ordered variant (pos f)
+type scanExtraPrio struct {
+	scanExtra
+	definition.PriorityComponent
+}
+
+const (
+	scanExtraPos = "fl"
+	scanExtraRet = "nsrebmp"
+)
+
+// scanExtraOK: a well-formed <pos><ret> pair ("" = no extra processor)
+func scanExtraOK(extra string) bool {
+	return extra == "" || (len(extra) == 2 && strings.IndexByte(scanExtraPos, extra[0]) >= 0 && strings.IndexByte(scanExtraRet, extra[1]) >= 0)
+}
+
+func newScanExtra(extra, target string) (any, *scanExtra) {
+	if extra[0] == 'f' {
+		x := &scanExtraPrio{scanExtra: scanExtra{target: target, ret: extra[1], order: math.MinInt}}
+		return x, &x.scanExtra
+	}
+	x := &scanExtra{target: target, ret: extra[1], order: math.MaxInt}
+	return x, x
 }
 
 /* ---------- shapes ---------- */
@@ -633,10 +730,14 @@ type scanResult struct {
 	post    map[string]string
 	units   []scanUnit
 	rec     *scanRecorder
+	extra   *scanExtra // nil without an extra processor
 	detail  string
 }
 
-func scanRun(kids []*scanNode, static any) *scanResult {
+func scanRun(kids []*scanNode, static any) *scanResult { return scanRunX(kids, static, "") }
+
+// scanRunX: extra = "" or <pos><ret> (see the header): the extra processor registered next to the recorder
+func scanRunX(kids []*scanNode, static any, extra string) *scanResult {
 	res := &scanResult{pre: map[string]string{}, post: map[string]string{}, nprops: map[string]int{}}
 	var root reflect.Value
 	if pan := hx.Guard(func() {
@@ -668,11 +769,17 @@ func scanRun(kids []*scanNode, static any) *scanResult {
 	name := framework_helper.GetComponentName(comp)
 	res.rec = newScanRecorder(name, root)
 	a := app.NewApp()
+	comps := []any{comp, pv.a, pv.b, res.rec}
+	if extra != "" {
+		var xc any
+		xc, res.extra = newScanExtra(extra, name)
+		comps = append(comps, xc)
+	}
 	var err error
 	pan := hx.Guard(func() {
 		err = a.Run(app.LogLevel(syslog.LvPanic),
 			app.SetConfigLoader(loader.NewRawLoader([]byte(scanYaml))),
-			app.SetComponents(comp, pv.a, pv.b, res.rec))
+			app.SetComponents(comps...))
 	})
 	switch {
 	case pan != nil:
@@ -1098,6 +1205,9 @@ func scanLabels(kids []*scanNode, r *scanResult, extra ...string) []string {
 	if blankInGroup {
 		tags = append(tags, "custom-blank-in-brackets")
 	}
+	if r.extra != nil && r.extra.calls > 0 && r.rec.calls > 0 && len(r.rec.seen) > 0 && strings.IndexByte("ebp", r.extra.ret) >= 0 {
+		tags = append(tags, "extra-returns-without-custom-fields")
+	}
 	tags = append(tags, fmt.Sprintf("units%d", len(r.units)/4*4))
 	am, amt, sh, di := scanNameStats(kids)
 	for _, l := range []struct {
@@ -1116,7 +1226,12 @@ func scanLabels(kids []*scanNode, r *scanResult, extra ...string) []string {
 
 // one case: run the arrangement, evaluate the oracles, compare with the flattened run
 func scanCase(mode string, kids []*scanNode, static any, flat *scanResult, labels []string, w *hx.Writer) *scanResult {
-	r := scanRun(kids, static)
+	extra := ""
+	if i := strings.IndexByte(mode, '+'); i >= 0 {
+		extra = mode[i+1:]
+		labels = append(append([]string{}, labels...), "extra-processor", "extra-pos-"+extra[:1], "extra-ret-"+extra[1:])
+	}
+	r := scanRunX(kids, static, extra)
 	scanDebug(r)
 	c := hx.Case{Scn: scanEncode(mode, kids), Obs: r.obs}
 	c.Oracle = scanOracleSingle(r)
@@ -1774,6 +1889,19 @@ func scanGen(rng *hx.Rng, n int, tier string, w *hx.Writer) {
 			g.repeatNames(&re, false)
 			scanCase("G", re, nil, flat, []string{"renest"}, w)
 		}
+		// a third of the shapes once more (drawn last: the cases above are the same as without it), started together with an
+		// extra user processor ahead of the recorder that RETURNS a property list; compared with the flattened run without it
+		if g.r.P(1, 3) {
+			mode := "G+" + string(scanExtraPos[g.r.Intn(len(scanExtraPos))]) + string(scanExtraRet[1+g.r.Intn(len(scanExtraRet)-1)])
+			if g.r.P(1, 12) {
+				mode = mode[:3] + "n"
+			}
+			xk := base
+			if g.r.P(1, 3) {
+				xk = g.renest(scanCloneAll(flatKids), 0)
+			}
+			scanCase(mode, xk, nil, flat, []string{"with-extra"}, w)
+		}
 	}
 }
 
@@ -1825,6 +1953,12 @@ func scanCorpus(w *hx.Writer) {
 	}
 	sfl := scanCase("G", scanFlatten(sched), nil, nil, []string{"corpus", "flat"}, w)
 	scanCase("G", sched, nil, sfl, []string{"corpus", "base"}, w)
+	// the same two shapes next to an extra user processor ahead of the recorder whose PostProcessProperties returns a
+	// partial / empty / reordered list: nothing changes for the recorder and for the built-in processors
+	for _, x := range []string{"fb", "lb", "fe", "le", "fm", "lp", "fr", "ls", "fn"} {
+		scanCase("G+"+x, sched, nil, sfl, []string{"corpus", "with-extra"}, w)
+		scanCase("G+"+x, deep, nil, flat, []string{"corpus", "with-extra"}, w)
+	}
 	// repeated names: sibling mix-ins with an equally named field; a diamond; a shadowed name
 	dep := func() *scanNode { return leaf("Dep", "pa", scanKV{"wire", ""}) }
 	base := func() *scanNode {
@@ -1858,8 +1992,15 @@ func scanReplay(scn string, w *hx.Writer) {
 		scanStaticCase(k, scanStatics[k], []string{"replay"}, w)
 		return
 	}
+	mode := "G"
+	if strings.HasPrefix(f[0], "G+") {
+		if !scanExtraOK(f[0][2:]) || len(f[0]) != 4 {
+			return
+		}
+		mode = f[0]
+	}
 	flat := scanRun(scanFlatten(kids), nil)
-	scanCase("G", kids, nil, flat, []string{"replay"}, w)
+	scanCase(mode, kids, nil, flat, []string{"replay"}, w)
 }
 
 // SCAN_DEBUG=1: print why a Run failed (generator tuning only)
